@@ -13,7 +13,7 @@ def run(chk):
                 "after it; the full abstract state (registry included) must equal the spec's unchanged state. "
                 "Non-trivial: >= 3 steps. Trace: recorded random histories (fingerprints checked at each step).")
     quick = chk.tier == "quick"
-    registry.run_machine(chk, PID, ["observe-3", "observe-org-2", "leaf-unary-3"], ["observe-3", "observe-org-2", "observe-4", "leaf-unary-3", "many-3", "ser-3q"], None)
+    registry.run_machine(chk, PID, ["observe-3", "observe-org-2", "picky-3", "leaf-unary-3"], ["observe-3", "observe-org-2", "picky-3", "observe-4", "leaf-unary-3", "many-3", "ser-3q"], None)
     registry.run_traces(chk, PID, 60 if quick else 800, 30 if quick else 50, ser=True)
 
 
